@@ -119,6 +119,11 @@ ChunkedWriteFails(s, e) ==
   \cup Clause("C19", "a write of an unfinished body was refused although the smallest chunk fits: no progress",
               (~s.ended /\ e.inl > 0 /\ e.outl >= 6) => ok)
 
+\* consume_direct_write on a chunked body: there is nothing to account for — refused, and nothing changes
+ChunkedDirectFails(s, e) ==
+       Clause("C03", "a direct write on a chunked body must be refused", e.res = "err")
+  \cup Clause("C03", "a direct write on a chunked body changed the finished flag", e.ready = s.ready)
+
 ChunkedWriteUpd(s, e) ==
   [s EXCEPT !.ended = @ \/ (e.res = "ok" /\ e.term > 0), !.ready = e.ready]
 
